@@ -18,7 +18,7 @@ Verdict(r) ==
   ELSE IF Len(r.out) # Len(e.out) THEN "length"
   ELSE IF \E t \in DOMAIN r.out : r.out[t] # e.out[t]
        THEN "value"
-  ELSE IF ("asked" \in DOMAIN r) /\ r.asked # MemAsked(r.case) THEN "memory-size"
+  ELSE IF ("asked" \in DOMAIN r) /\ ~MemAskedOK(r.case, r.asked) THEN "memory-size"
   ELSE IF ("reads" \in DOMAIN r) /\ (\E j \in DOMAIN r.reads : r.reads[j] > Len(e.out) + 1) THEN "reads"
   ELSE "ok"
 
